@@ -150,7 +150,8 @@ func (s *nscen) Key() string {
 
 func nodeScenarios(c interface{ Quick() bool }) []*nscen {
 	var out []*nscen
-	for _, t0 := range []int64{1, 500, 1700000000000, 1700000000749} {
+	// 2147483647749: half a bucket before bucket number 2^32 of the 500 ms array (January 2038)
+	for _, t0 := range []int64{1, 500, 1700000000000, 1700000000749, 2147483647749} {
 		out = append(out, &nscen{T0: t0, ops: nodeOps(c.Quick())})
 	}
 	return out
